@@ -56,6 +56,15 @@ def setVolatile : DType → Option DType
   | .ptr t c _ => some (.ptr t c true)
   | _ => none
 
+/-- the `Type` object a declarator was built around (pointers, references, arrays and function types wrap it) -/
+def baseType : DType → DType
+  | .type n c v => .type n c v
+  | .ptr t _ _ => baseType t
+  | .ref t => baseType t
+  | .mref t => baseType t
+  | .array t _ => baseType t
+  | .fn rt _ _ _ _ _ => baseType rt
+
 /-- the functions that take part in call cycles -/
 structure Core where
   parseType : Option CTok → Bool → M (Option DType × Mods)
@@ -437,6 +446,10 @@ def parseParameterStep (F : Nat) (rec : Core) (tok : Option CTok) (conceptOk : B
           | none => pure (pt, none)
         else pure (pt, none))
   let dtype ← parseCvPtr rec parsedType
+  -- for a parameter that starts with `auto`, `at_type` IS the parsed `Type` object: qualifiers written after
+  -- `auto` (`auto const x`) are set on it in place by `_parse_cv_ptr_or_fn`, so the invented template
+  -- parameter carries them too
+  let atType := if tok.type = "auto" then some (baseType dtype) else atType
   let mut paramPack := (← tokenIf ["ELLIPSIS"]).isSome
   -- name can be surrounded by parens
   match (← tokenIf ["("]) with
